@@ -298,8 +298,20 @@ def finish(handle, groups, ctx, res, prop):
         return
     line = [l for l in so.splitlines() if l.startswith("RESULT ")]
     if handle.returncode != 0 or not line:
-        res.mismatch("numba-compiled vs interpreted", {"groups": list(groups)}, "", "", note="the compiled twin failed: " + se[-600:])
-        return
+        # the worker died (e.g. killed under memory pressure while several checks ran at once): once more, now that this check's own
+        # work is done; only a second failure is reported
+        res.count("jit-twin:worker_restarted")
+        h2 = start(groups, ctx)
+        try:
+            so, se2 = h2.communicate(timeout=1500)
+        except subprocess.TimeoutExpired:
+            h2.kill()
+            so, se2 = "", "timeout"
+        line = [l for l in so.splitlines() if l.startswith("RESULT ")]
+        if h2.returncode != 0 or not line:
+            res.mismatch("numba-compiled vs interpreted", {"groups": list(groups)}, "", "",
+                         note=f"the compiled twin failed twice (exit {handle.returncode}, then {h2.returncode}): " + (se[-300:] + " | " + se2[-300:]))
+            return
     compiled = json.loads(line[0][7:])
     for g in [g_ for g_ in groups if g_ in PREDICATES]:
         res.count(f"jit-twin:{g}(compiled only)")
